@@ -1,6 +1,6 @@
 #!/bin/sh
 # usage: tools/trymut.sh <patch.diff> <Cxx> [tier]  — apply a seeded change to /repo, run the check, undo it
-p=$1; id=$2; tier=${3:-quick}
+p=$(readlink -f $1); id=$2; tier=${3:-quick}
 git -C /repo diff --quiet || { echo "/repo not clean"; exit 2; }
 git -C /repo apply "$p" || { echo "patch does not apply"; exit 2; }
 cd /verif && ./check $id --tier $tier | tail -4
